@@ -28,7 +28,7 @@ def _psy():
 
 REFUSALS = [("Return statements and therefore cannot be inlined", "earlyReturn"), ("static (Fortran SAVE)", "static"), ("from its parent container", "container"),
             ("cannot be found in any of the containers", "container"),
-            ("number of arguments", "nargs"), ("is not a Reference or a Literal", "arrayExpr"),
+            ("number of arguments", "nargs"), ("is a loop variable but the actual argument", "loopVarActual"), ("is not a Reference or a Literal", "arrayExpr"),
             ("reshapes an argument", "rank"), ("non-unit stride", "stride")]
 
 
@@ -149,27 +149,39 @@ def export_call(call, callee, names):
     return ["call", local_names, outer, params, locs, statics, body, actuals, len(rets), last_is_return]
 
 
-def export_cstmt(node, names, callsx):
+def export_use(assignment, call, callee, names):
+    """the assignment containing a function reference, with the reference replaced by the result variable"""
+    from psyclone.psyir.symbols import DataSymbol, INTEGER_TYPE
+    _, _, N, _, _ = _psy()
+    k = [id(c) for c in assignment.walk(N.Call)].index(id(call))
+    asg = assignment.copy()
+    asg.walk(N.Call)[k].replace_with(N.Reference(DataSymbol(callee.return_symbol.name, INTEGER_TYPE)))
+    if any(type(c) is N.Call for c in asg.walk(N.Call)):
+        raise minif.Unsupported("several calls in one statement")
+    return minif.export_stmt(asg, names)
+
+
+def export_cstmt(node, names, callsx, site=None):
     """caller statements with the call -> CStmt S-expression"""
     _, _, N, _, _ = _psy()
     if isinstance(node, (list, tuple)):
-        parts = [export_cstmt(c, names, callsx) for c in node]
+        parts = [export_cstmt(c, names, callsx, site) for c in node]
         return ["cseq"] + [p for p in parts if p is not None]
     if isinstance(node, N.Schedule):
-        return export_cstmt(list(node.children), names, callsx)
+        return export_cstmt(list(node.children), names, callsx, site)
     has_call = any(type(c) is N.Call for c in node.walk(N.Call))
     if not has_call:
         st = minif.export_stmt(node, names)
         return None if st is None else ["base", st]
-    if type(node) is N.Call:
+    if type(node) is N.Call or node is site:
         return callsx
     if isinstance(node, N.IfBlock):
-        els = export_cstmt(node.else_body, names, callsx) if node.else_body is not None else ["base", ["skip"]]
-        return ["cite", minif.export_expr(node.condition, names), export_cstmt(node.if_body, names, callsx), els]
+        els = export_cstmt(node.else_body, names, callsx, site) if node.else_body is not None else ["base", ["skip"]]
+        return ["cite", minif.export_expr(node.condition, names), export_cstmt(node.if_body, names, callsx, site), els]
     if isinstance(node, N.Loop):
         return ["cloop", names.id(node.variable.name), minif.export_expr(node.start_expr, names),
                 minif.export_expr(node.stop_expr, names), minif.export_expr(node.step_expr, names),
-                export_cstmt(node.loop_body, names, callsx)]
+                export_cstmt(node.loop_body, names, callsx, site)]
     raise minif.Unsupported("call inside " + type(node).__name__)
 
 
@@ -183,14 +195,27 @@ def real_inline(src):
     caller = call.ancestor(N.Routine)
     names = minif.Names()
     res = {"names": names}
+    site = call                    # the statement the inlined code is placed at
     try:
         callsx = export_call(call, callee, names)
         res["callsx"] = callsx
-        res["prog"] = export_cstmt(list(caller.children), names, callsx)
+        if callee.return_symbol is not None:
+            # function reference: `site` is the enclosing assignment; the model gets it with the call replaced by
+            # the function's result variable (`(fcall <call> <res> <stmt>)`)
+            site = call.ancestor(N.Assignment)
+            if site is None:
+                # (the pinned apply() crashes with AttributeError here: it needs an enclosing Assignment)
+                raise minif.Unsupported("function reference outside an assignment")
+            res["fuse"] = [names.id(callee.return_symbol.name), export_use(site, call, callee, names)]
+            callsx = ["fcall", callsx] + res["fuse"]
+        res["prog"] = export_cstmt(list(caller.children), names, callsx, site)
     except minif.Unsupported as e:
         res["unsupported"] = str(e)
+        if site is None:
+            res["status"] = "skipped"
+            return res
     res["base_ids"] = set(names.ids.values())
-    parent, pos, nbefore = call.parent, call.position, len(call.parent.children)
+    parent, pos, nbefore = site.parent, site.position, len(site.parent.children)
     try:
         InlineTrans().apply(call)
     except TransformationError as e:
@@ -300,32 +325,25 @@ def written(st):
 
 
 def finding_class(callsx, model_stmt, flags):
-    """which known-finding class a call belongs to (None = inside the proved domain).  The gate is the
-    model's own flags (Legal, WellFormed, IndexStable, NoOuterClash); the actual kinds only choose the label."""
-    legal, wf, stable, noclash = flags
-    if not legal:
-        return "illegal"
-    classes = []
-    if not wf:
-        classes.append("C07-loopvar-formal")
-    if not stable:
-        w = written(model_stmt)
-        lab = set()
-        for a in callsx[7]:
-            keys = set()
-            if a[0] == "expr":
-                keys = expr_vars(a[1])
-                if keys & w:
-                    lab.add("C07-expr-actual-reevaluated")
-            elif a[0] != "var":
-                es = [x for x in a[2:] if isinstance(x, list)]
-                keys = set().union(*[expr_vars(x) for x in es]) if es else set()
-                if keys & w:
-                    lab.add("C07-index-modified")
-        classes += sorted(lab) or ["C07-index-modified"]
-    if not noclash:
-        classes.append("C07-outer-capture")
-    return classes or None
+    """which known-finding class a call belongs to (None = inside the proved domain).  The gate is the model's own
+    flags (Legal, WellScoped, IndexStable); the actual kinds only choose the label."""
+    legal, scoped, stable = flags
+    if not legal or not scoped:
+        return ["illegal"]
+    if stable:
+        return None
+    w = written(model_stmt)
+    lab = set()
+    for a in callsx[7]:
+        if a[0] == "expr":
+            if expr_vars(a[1]) & w:
+                lab.add("C07-expr-actual-reevaluated")
+        elif a[0] != "var":
+            es = [x for x in a[2:] if isinstance(x, list)]
+            keys = set().union(*[expr_vars(x) for x in es]) if es else set()
+            if keys & w:
+                lab.add("C07-index-modified")
+    return sorted(lab) or ["C07-index-modified"]
 
 
 # ---------------------------------------------------------------------------------------------
@@ -450,8 +468,9 @@ def run(chk):
         "actual arguments passed to definable dummies do not alias (Fortran 2018 15.5.2.13); the theorems do not need it",
         "formal array lower bounds are integer literals; an expression actual's dummy is never defined",
         "exporters harness/minif.py and harness/props/c07.py (PSyIR -> MiniF / model Call) are trusted",
-        "callee frame: execCall places callee locals at the names chosen by merge; C07_inline_no_capture proves these are "
-        "invisible to the caller (so the frame is a faithful encoding of fresh storage)"]
+        "model in FIXED mode for fixes/C07-loopvar-formal.patch and fixes/C07-outer-capture.patch (an unfixed tree yields "
+        "VIOLATION on those inputs); callee frame: C07_frame_independent shows the CALL's visible result does not depend on "
+        "where fresh storage for the callee locals is taken"]
     chk.cov["trusted_base"] = ["Lean 4.33.0 kernel", "axioms propext/Classical.choice/Quot.sound only (audited)",
                                "MiniF semantics (validated against gfortran on every accepted case)",
                                "PSyIR->model exporters in harness/", "gfortran 12 as execution oracle"]
@@ -475,12 +494,12 @@ def run(chk):
     for k, r in enumerate(results):
         if "callsx" in r and "unsupported" not in r:
             idx.append(k)
-            lines.append(sx(["inline", r["callsx"]]))
+            lines.append(sx(["inline", r["callsx"]] + r.get("fuse", [])))
             lines.append(sx(["run", r["prog"], [], [list(q) for q in c07_gen.queries(r["names"], r["modvar"])]]))
     out = common.driver("C07", lines)
     chk.cov["phase_s"]["driver"] = round(time.time() - t0, 1)
     risky = {id(results[k]) for j, k in enumerate(idx)
-             if out[2 * j].startswith("(ok") and parse_sx(out[2 * j])[2:6] != [1, 1, 1, 1]}
+             if out[2 * j].startswith("(ok") and parse_sx(out[2 * j])[2:5] != [1, 1, 1]}
     run_gf_all(results, risky)                                         # batched, threaded: gfortran dominates
     chk.cov["phase_s"]["gfortran"] = round(time.time() - t0, 1)
     dist = {"accepted": 0, "refused": 0, "unsupported": 0, "invalid_original": 0, "in_proved_domain": 0,
@@ -512,7 +531,7 @@ def run(chk):
                 chk.correspondence_broken("validate: model refuses, real code differs", {"src": src},
                                           mo, [r["status"], r.get("cls")])
         else:
-            flags = m[2:6]
+            flags = m[2:5]
             cls = finding_class(r["callsx"], m[1], flags)
             if r["status"] != "ok":
                 agreed = False
@@ -559,7 +578,7 @@ def run(chk):
         # the property itself
         if verdict:
             payload = {"kind": "failing-input", "src": src, "modvar": modvar, "observed": verdict[0], "expected": verdict[1],
-                       "model_flags(legal,wellformed,stable,noclash)": m[2:6] if m[0] == "ok" else None}
+                       "model_flags(legal,wellscoped,stable)": m[2:5] if m[0] == "ok" else None}
             if cls and cls != ["illegal"] and agreed:
                 for c in cls:
                     dist["known_class_failing"][c] = dist["known_class_failing"].get(c, 0) + 1
